@@ -204,6 +204,11 @@ pub fn eval(rng: &mut Rng, pats: &[(G, usize)], host: &G, heurs: &[Heur], o: &mu
             None => "(panic)".to_string(),
         };
         o.case(sexp::l(vec![sexp::a("pg-run"), dump.clone(), sexp::l(vec![host_s.clone()])]).to_string(), format!("({})", exp), built.n_states >= 3);
+        // a single-root pattern compiled alone: every key of the automaton is a key of the pattern (the hypothesis
+        // aut_keys_in of Theorem c02_portgraph_run_reports_embeddings_of_good_patterns)
+        if pats.len() == 1 && present[0] && crate::pg::n_index_roots(&pats[0].0, pats[0].1) <= 1 {
+            o.case(sexp::l(vec![sexp::a("pg-ownkeys"), dump.clone(), pats[0].0.to_s(), sexp::a(pats[0].1)]).to_string(), "(keysin 1)".to_string(), built.n_states >= 3);
+        }
         o.case(sexp::l(vec![sexp::a("pg-cert"), dump, sexp::list(&present, |x| sexp::b(*x)), S::L(all_css.clone())]).to_string(), "(wf 1 sound 1 complete 1)".to_string(), built.n_states >= 3);
     }
     o.count("pgm_patterns", pats.len());
